@@ -3,7 +3,7 @@
 import json, subprocess, sys
 
 HOOK_COMMITS = ["e2c5f5d"]
-FIX_COMMITS = ["92d05d9","2f27094","fb921a5","7155879","c3211c8","1a593ad","1bc8a7f","47c46e8"]
+FIX_COMMITS = ["92d05d9","2f27094","fb921a5","7155879","c3211c8","1a593ad","1bc8a7f","47c46e8","98166ae"]
 
 E1 = "E1 bounded-exhaustive configuration enumeration vs Go reference model"
 E2 = "E2 explicit-state search over API histories on real objects (replay-built successors)"
@@ -62,6 +62,22 @@ CHECKS = {
    technique="explicit-state BFS over Accumulate/Result histories with invalid calls interleaved, real metric replayed per transition, plus exhaustive re-partitioning of every short data sequence",
    text="Every history up to the depth bound over all valid batches of size <=2 (3) on a 4-label alphabet and six kinds of invalid call is executed on a fresh Accuracy; Result and the hook counters must equal matched/total of the model after every transition; every consecutive partition of every sequence up to length 5 (6) must give the same Result.",
    note="State (total, correct) deduplicated; label alphabet {0,1,2.5,-1}."),
+ "C11": dict(engine="E2", ref="§5 C11",
+   technique="deviation-bounded exhaustive enumeration of training histories (0 or 1 deviation from the default step at every step/weight) executed on the real layer, activation, loss, optimizer objects and compared step by step with the gradient-descent trajectory of an analytic model",
+   text="Every model FC->activation->loss within the dimension bound, every learning rate of the alphabet, three initialisations and every single-deviation history (reset omitted, reset(false), double update, skipped update at every step and weight) is run for 3-4 steps on the real components; after each step loss, weights, shapes and (through the hook) freshness of the reset contexts are compared with the model; omitted resets must surface as Update errors that replace nothing.",
+   note="Known finding KF-1 for batch>1 / Softmax width>1 (trajectory must then equal the mean-model trajectory at every step). Bounds: B,D,O<=2 (3), 3-4 steps, <=1 deviation."),
+ "C13": dict(engine="E2", ref="§5 C13",
+   technique="bounded-exhaustive enumeration of prediction/target value-class tuples x value-preserving upstream programs x tracked-target flag, plus all <=2-operation upstream programs; real back-propagation vs analytic loss derivative composed with the reference reverse pass",
+   text="Predictions of every value class (exact 0 and 1, within 1e-13 of the bounds, interior) reach the loss as a leaf and as an interior node through six value-preserving programs and through every small upstream program; the prediction gradient must be the analytic derivative (finite zero where clipped), of the prediction's shape, and every upstream tensor must receive the chain-rule value.",
+   note="Analytic loss VJPs validated by finite differences. Predictions exactly at the clipping bounds excluded as in the statement."),
+ "C15": dict(engine="E2", ref="§5 C15",
+   technique="bounded-exhaustive enumeration of activation configs x shapes x value classes x upstream forms x downstream forms; real back-propagation vs derivative formulas; sub-gradient at 0 inferred and range-checked",
+   text="Every activation (every Softmax dim) on every shape of the bound, with exact zeros and +-700 among the inputs, placed at a leaf, after value-preserving and arbitrary small upstream programs and before 0-1 further operations; the input gradient must equal upstream times the derivative of the statement, be finite and have the input's shape.",
+   note="Known finding KF-1 for Softmax width>1. At an input of exactly 0 any (Leaky)Relu derivative between the one-sided ones is accepted."),
+ "C16": dict(engine="E1", ref="§5 C16",
+   technique="bounded-exhaustive enumeration of batch/feature/output counts, tracked flags and upstream weightings; all short histories of parameter replacement through the Weights() pointers interleaved with Forward; real layer vs affine formula and its derivatives",
+   text="For every B,D,O within the bound the layer's output and the gradients of W, B and x are compared with the formula of the statement; row independence is checked bit-exactly; default (seeded stream) and custom/failing initializers are exercised; every history of up to 4-5 replacement/Forward events must use the tensors currently behind the pointers.",
+   note="Known finding KF-1 for W/B gradients with batch>1. Bounds: dimensions <=3 (4)."),
 }
 
 NOT_YET = {}
